@@ -400,7 +400,7 @@ def record_case(seed, nsteps=8):
         run.graph.set_record_settings(**combo, max_records=mr if mr is not None else 20000)
         rec, obs, gs = run.episode(nsteps, eps=0, api="step")
         d = rt.episode_record_to_dict(rec)
-        out["async_runs"].append(dict(settings=combo, max_records=mr, record=d, obs=obs))
+        out["async_runs"].append(dict(settings=combo, max_records=mr, record=d, obs=obs, executed=run.last_executed))
         if ci == 0:
             try:
                 full_rec = run.graph.get_record()
